@@ -391,6 +391,7 @@ class Gen:
         self.live_threads = {}          # t -> pending sends [(c, name)]
         self.ops_used = {}
         self.vias_used = {}
+        self.allow_k03a = False
 
     def fresh(self, p):
         self.n += 1
@@ -492,10 +493,11 @@ class Gen:
             o = other({"append": "l", "vappend": "v", "hunion": "m", "sunion": "t", "tr-ext": "l"}[op])
             if o is None:
                 return None
-            return [a0, o] if r.random() < 0.6 else [o, a0]
+            res = [a0, o] if r.random() < 0.6 else [o, a0]
+            return self.k03a_filter(op, res)
         if op == "append3":
             o1, o2 = other("l"), other("l")
-            return [o1, a0, o2]
+            return self.k03a_filter(op, [o1, a0, o2])
         if op in ("list-tail", "take", "vtake", "vdrop"):
             return [a0, ("i", r.randint(0, n))]
         if op in ("list-ref", "vref"):
@@ -512,6 +514,15 @@ class Gen:
             o = other("s")
             return [a0, o if (o and r.random() < 0.5) else ("s", r.choice(["q", "rs", ""]))]
         return None
+
+    def k03a_filter(self, op, atoms):
+        """class of finding K03a: (append '() xs ...) with an empty first operand loses the other operands when xs was
+        itself produced by an append.  Generated only when allow_k03a is set (the check runs that class separately)."""
+        if op in ("append", "append3", "tr-ext") and not self.allow_k03a and all(a is not None for a in atoms):
+            v = self.ev.atom(atoms[0], self.env)
+            if kind(v) == "l" and len(v[1]) == 0:
+                return None
+        return atoms
 
     OPS_BY_KIND = {
         "l": ["cons", "cdr", "rest", "append", "append3", "reverse", "push-back", "list-tail", "take", "sort", "map-id",
